@@ -324,6 +324,7 @@ type gen struct {
 	m         *model
 	agenda    []Op // follow-ups that make close -> collect -> use sequences likely
 	slotsDone [2]int
+	engScen   int // 0 none, 1 pending, 2 done: close every compiled module, then the engine (cache / runtime) under live instances
 }
 
 // GenHistory is a pure function of (seed, compiler, avoidKnown): parent and
@@ -385,6 +386,9 @@ func GenHistory(seed uint64, compiler, avoidKnown bool) *History {
 	target := 8 + r.Intn(33)
 	h.Small = target <= 20
 	g := &gen{r: r, h: h, m: newModel(h)}
+	if r.Chance(1, 5) {
+		g.engScen = 1
+	}
 	for tries := 0; len(h.Steps) < target; tries++ {
 		op, ok := g.next(len(h.Steps), target)
 		if !ok {
@@ -458,6 +462,10 @@ func (g *gen) next(i, target int) (Op, bool) {
 				Op{Kind: "call", Inst: len(m.inst), Name: "ig_call"})
 		}
 		return Op{Kind: "inst", RT: rt, Slot: slot, Inst: len(m.inst), Name: slotName(slot)}, true
+	}
+	if !pendingSlots && g.engScen == 1 && len(m.inst) > 0 && r.Chance(1, 3) {
+		g.engScen = 2
+		g.engineCloseAgenda()
 	}
 	// 2. agenda follow-ups
 	if len(g.agenda) > 0 && r.Chance(3, 5) {
@@ -535,6 +543,67 @@ func (g *gen) next(i, target int) (Op, bool) {
 	}
 }
 
+// engineCloseAgenda: empty the engine's compiled-module map while instances of
+// explicit compiled modules stay open (close every CompiledModule, every
+// instance of an implicit one, the host modules), then close the engine - the
+// cache when there is one, else the runtime from inside host.act with the
+// caller on the stack - and keep using the survivors: memory.grow, table.grow,
+// run-time ref.func, deep recursion, new api.Function objects.
+func (g *gen) engineCloseAgenda() {
+	r, m := g.r, g.m
+	var closes []Op
+	for rt := 0; rt < g.rts(); rt++ {
+		for s, sp := range g.h.Mods {
+			if !sp.Implicit && m.comp[rt][s].exists && !m.comp[rt][s].dropped {
+				closes = append(closes, Op{Kind: "closecomp", RT: rt, Slot: s})
+			}
+		}
+		closes = append(closes, Op{Kind: "closehost", RT: rt})
+	}
+	var live []int
+	for _, in := range m.inst {
+		if in.ghost || in.absent || !in.ref {
+			continue
+		}
+		if m.spec(in.id).Implicit {
+			closes = append(closes, Op{Kind: "closemod", Inst: in.id})
+		} else if !m.isClosed(in.id) {
+			live = append(live, in.id)
+		}
+	}
+	if len(live) == 0 {
+		return
+	}
+	uses := func(id int) []Op {
+		return []Op{
+			{Kind: "call", Inst: id, Name: "tramp", Args: []uint64{uint64(800 + r.Intn(600))}},
+			{Kind: "call", Inst: id, Name: "mem_grow", Args: []uint64{uint64(r.Intn(2))}},
+			{Kind: "passref", From: id, Inst: id, Which: r.Intn(2), Channel: "pt_grow", N: 1},
+			{Kind: "call", Inst: id, Name: "do_act", Args: []uint64{uint64(r.Intn(50)), 0}},
+		}
+	}
+	var ag []Op
+	if g.h.Cache {
+		ag = append(ag, closes...)
+		ag = append(ag, Op{Kind: "closecache"})
+		if r.Bool() {
+			ag = append(ag, Op{Kind: "gc"})
+		}
+		for k := 0; k < 2; k++ {
+			ag = append(ag, uses(pick(r, live))...)
+		}
+	} else {
+		id := pick(r, live)
+		subs := append(append([]Op(nil), closes...), Op{Kind: "closert", RT: m.inst[id].rt})
+		if r.Bool() {
+			subs = append(subs, Op{Kind: "gc"})
+		}
+		ag = append(ag, Op{Kind: "call", Inst: id, Name: "do_act", Args: []uint64{uint64(r.Intn(50)), 0}, Sub: subs})
+		ag = append(ag, uses(id)[:2]...)
+	}
+	g.agenda = append(ag, g.agenda...)
+}
+
 // failAgenda: after a failing instantiation wrote into the shared table:
 // close/drop its compiled module, collect, churn, then a live member of the
 // table's group calls through the written slots.
@@ -584,6 +653,8 @@ func (g *gen) valid(op Op) bool {
 	case "closecomp", "dropcomp":
 		c := m.comp[op.RT][op.Slot]
 		return c.exists && !c.dropped
+	case "passref":
+		return op.Inst < len(m.inst) && m.inst[op.Inst].ref && m.inst[op.From].ref && !m.isClosed(op.From)
 	}
 	return true
 }
@@ -764,7 +835,7 @@ func (g *gen) genCall(withAct bool) (Op, bool) {
 		op.Sub = g.genSubs(id)
 		return g.finish(op)
 	}
-	names := []string{"f0", "f1", "pt_call", "pt_call", "pt_call", "pt_isnull", "pt_copy_call", "pt_size", "fg_call", "fg_call", "fg_isnull", "xg_call", "mem_rw", "mem_grow", "gi_set"}
+	names := []string{"f0", "f1", "pt_call", "pt_call", "pt_call", "pt_isnull", "pt_copy_call", "pt_size", "fg_call", "fg_call", "fg_isnull", "xg_call", "mem_rw", "mem_grow", "gi_set", "tramp", "tramp"}
 	if s.ImpFunc >= 0 {
 		names = append(names, "call_imp", "call_imp")
 	}
@@ -784,6 +855,8 @@ func (g *gen) genCall(withAct bool) (Op, bool) {
 		op.Args = []uint64{uint64(r.Intn(4)), uint64(r.Intn(4))}
 	case "mem_rw", "gi_set":
 		op.Args = []uint64{uint64(r.Intn(1000))}
+	case "tramp":
+		op.Args = []uint64{uint64(200 + r.Intn(1200))}
 	case "mem_grow":
 		op.Args = []uint64{uint64(r.Intn(2))}
 	}
@@ -1288,6 +1361,30 @@ func ManualHistory(channel string, compiler bool) *History {
 		pass = Op{Kind: "passref", From: 0, Inst: 1, Which: 3, Channel: "pt_set", Idx: 2}
 		use = Op{Kind: "call", Inst: 1, Name: "pt_call2", Args: []uint64{2, 5, 0},
 			Sub: []Op{{Kind: "closemod", Inst: 0}, {Kind: "closecomp", RT: 0, Slot: 0}, {Kind: "drop", Inst: 0}, {Kind: "dropcomp", RT: 0, Slot: 0}, {Kind: "gc"}}}
+	case "engine-close", "engine-close-inflight":
+		// every CompiledModule (and the host module) is closed while instance #0 stays open, then the engine is
+		// closed - through the cache, or through Runtime.Close inside host.act with #0's caller on the stack -
+		// and #0 goes on using the engine-wide shared trampolines and new api.Function objects
+		h.Mods = []ModSpec{a}
+		g := &gen{h: h, m: newModel(h)}
+		steps := []Op{{Kind: "compile", Slot: 0}, {Kind: "inst", Slot: 0, Inst: 0, Name: "m0"}, {Kind: "call", Inst: 0, Name: "tramp", Args: []uint64{900}}}
+		closes := []Op{{Kind: "closecomp", Slot: 0}, {Kind: "closehost"}}
+		after := []Op{{Kind: "call", Inst: 0, Name: "tramp", Args: []uint64{900}}, {Kind: "call", Inst: 0, Name: "mem_grow", Args: []uint64{1}},
+			{Kind: "passref", From: 0, Inst: 0, Which: 1, Channel: "pt_grow", N: 1}, {Kind: "call", Inst: 0, Name: "do_act", Args: []uint64{5, 0}},
+			{Kind: "call", Inst: 0, Name: "pt_call", Args: []uint64{4}}}
+		if channel == "engine-close" {
+			h.Cache = true
+			steps = append(append(append(steps, closes...), Op{Kind: "closecache"}, Op{Kind: "gc"}), after...)
+		} else {
+			steps = append(steps, Op{Kind: "call", Inst: 0, Name: "do_act", Args: []uint64{5, 0},
+				Sub: append(append([]Op(nil), closes...), Op{Kind: "closert"}, Op{Kind: "gc"})})
+			steps = append(steps, after[:2]...)
+		}
+		for _, op := range steps {
+			g.emit(op)
+		}
+		h.NInst = len(g.m.inst)
+		return h
 	case "failed-instantiation", "failed-instantiation-exit":
 		// A owns and exports the table; F imports it, writes [ff0 ff1] at 2 through its active element segment, then its start function fails
 		a.ExportTable = true
